@@ -33,13 +33,14 @@ import (
 // ---- generic controller (also used by the other clock-dependent overlap families) -----------------
 
 type cthread struct {
-	id       int
-	ev       chan string // a park point, or "done"
-	release  chan struct{}
-	inCommit bool
-	done     bool
-	trace    []string // park points of the current call
-	times    []int64  // instants the clock handed to this thread during the current call
+	id          int
+	ev          chan string // a park point, or "done"
+	release     chan struct{}
+	inCommit    bool
+	clockParked bool // the clock was read since the last yield point
+	done        bool
+	trace       []string // park points of the current call
+	times       []int64  // instants the clock handed to this thread during the current call
 }
 
 func (th *cthread) park(p string) {
@@ -77,6 +78,7 @@ func (c *cctl) hook(point string) {
 	if th == nil {
 		return
 	}
+	th.clockParked = false
 	if point == "gau.afterRead" {
 		th.park("r")
 	} else {
@@ -95,7 +97,11 @@ func (c *cctl) Now() time.Time {
 	c.mu.Unlock()
 	if th := c.self(); th != nil && !th.inCommit {
 		th.times = append(th.times, t)
-		th.park("c")
+		if !th.clockParked {
+			// several readings in a row (no yield point in between) are one atomic step: nobody can run between them
+			th.clockParked = true
+			th.park("c")
+		}
 	}
 	return time.Unix(t, 0).UTC()
 }
@@ -123,7 +129,7 @@ func (c *cctl) spawn(id, calls int, call func(i int)) *cthread {
 			th.ev <- "done"
 		}()
 		for i := 0; i < calls; i++ {
-			th.inCommit = false
+			th.inCommit, th.clockParked = false, false
 			th.trace, th.times = nil, nil
 			th.ev <- "s"
 			<-th.release
